@@ -60,13 +60,24 @@ MixedCases ==
    ELSE {Case("mixed", RelSeq(m), <<DevSeq[1 + ((m + 7 * r) % Len(DevSeq))]>>, 0, m % 5 = 2) : m \in Masks, r \in 1..Rounds}
 DevCases == {Case("devs", <<>>, <<d>>, 0, FALSE) : d \in DevAll}
 
-Cases == CASE Fam = "rel"   -> RelCases
-           [] Fam = "loop"  -> LoopCases
-           [] Fam = "mixed" -> MixedCases
-           [] Fam = "devs"  -> DevCases
+\* bulk families are built as sequences directly (no set normalisation of ~10^5 records)
+MaskSeq == [k \in 1..((Hi - Lo) \div Step + 1) |-> Lo + (k - 1) * Step]
+RelCase1(m) == LET p == RelSeq(m)
+                   d == IF Len(p) > 0 THEN 1 + (m % Len(p)) ELSE 0
+               IN Case("rel", p, <<>>, IF m % 3 = 0 THEN d ELSE 0, m % 4 = 1)
+LoopCase(m) == Case("loop", RelSeq(m) \o <<<<1 + (m % N), 1 + (m % N)>>>>, <<>>, 0, FALSE)
+MixedCase(m, r) == Case("mixed", RelSeq(m), <<DevSeq[1 + ((m + 7 * r) % Len(DevSeq))]>>, 0, m % 5 = 2)
+CaseSeq == CASE Fam = "rel" /\ ~Full /\ ~Half -> [k \in DOMAIN MaskSeq |-> RelCase1(MaskSeq[k])]
+             [] Fam = "rel"                    -> SetToSeq(RelCases)
+             [] Fam = "loop"                   -> [k \in DOMAIN MaskSeq |-> LoopCase(MaskSeq[k])]
+             [] Fam = "mixed" /\ ~Full         -> [k \in 1..(Len(MaskSeq) * Rounds) |->
+                                                     MixedCase(MaskSeq[1 + ((k - 1) \div Rounds)], 1 + ((k - 1) % Rounds))]
+             [] Fam = "mixed"                  -> SetToSeq(MixedCases)
+             [] Fam = "devs"                   -> SetToSeq(DevCases)
 
 ASSUME Hi < 2 ^ Len(PairSeq)
-ASSUME ndJsonSerialize(IOEnv.OUT, SetToSeq(Cases))
-ASSUME PrintT(<<"EMITTED", Cardinality(Cases)>>)
+ASSUME Lo % Step = 0
+ASSUME ndJsonSerialize(IOEnv.OUT, CaseSeq)
+ASSUME PrintT(<<"EMITTED", Len(CaseSeq)>>)
 EnumNext == UNCHANGED vars
 =============================================================================
